@@ -291,6 +291,7 @@ fn scenario_pairs() -> Vec<(&'static str, &'static str, &'static str)> {
             r##"<svg><var i="0"/><rect xy="#z|h {{$i*3}}" wh="2"/><var i="{{$i+1}}"/><rect xy="#z|h {{$i*3}}" wh="2"/><var i="{{$i+1}}"/><rect id="z" wh="5"/></svg>"##),
         // second review round
         ("tail-text/if-false", r##"<svg><text x="1" y="2">a<tspan>x</tspan><if test="0"><tspan>b</tspan></if>c</text></svg>"##, r##"<svg><text x="1" y="2">a<tspan>x</tspan>c</text></svg>"##),
+        ("tail-text/word-space-after-if-false", r##"<svg><text x="1" y="2"><tspan>a</tspan><if test="0"><tspan>b</tspan></if> <tspan>c</tspan></text></svg>"##, r##"<svg><text x="1" y="2"><tspan>a</tspan> <tspan>c</tspan></text></svg>"##),
         ("tail-text/loop-zero", r##"<svg><text x="1" y="2"><tspan>x</tspan><loop count="0"><tspan>b</tspan></loop>tail<tspan>y</tspan></text></svg>"##, r##"<svg><text x="1" y="2"><tspan>x</tspan>tail<tspan>y</tspan></text></svg>"##),
         ("loop-var/decimal-steps", r##"<svg><loop count="4" loop-var="i" start="0.1" step="0.1"><text xy="0 $i" text="v=$i"/></loop></svg>"##,
             r##"<svg><text xy="0 0.1" text="v=0.1"/><text xy="0 0.2" text="v=0.2"/><text xy="0 0.3" text="v=0.3"/><text xy="0 0.4" text="v=0.4"/></svg>"##),
